@@ -16,4 +16,5 @@ func registerAll() {
 	core.Register("C15", execC15)
 	core.Register("C04", execC04)
 	core.Register("C05", execC05)
+	core.Register("C10", execC10)
 }
